@@ -130,7 +130,9 @@ PROPS["C01"] = dict(
                custom("miri_stage", release=True, shards=16, scale=1, name="miri:release")],
         thorough=[native("dbg"), native("rel"),
                   custom("miri_stage", release=True, shards=16, scale=8, name="miri:release"),
-                  custom("miri_stage", release=False, shards=16, scale=8, name="miri:dev")],
+                  custom("miri_stage", release=False, shards=16, scale=8, name="miri:dev"),
+                  custom("asan_stage", builds=["asan"], scale=0.05, name="asan"),
+                  custom("fuzz_stage", builds=["dbg", "rel"], target="parse_total", seconds=240, name="libfuzzer:parse_total")],
     ),
 )
 
@@ -373,7 +375,9 @@ PROPS["C09"] = dict(
         quick=[native("dbg"), native("rel"), custom("miri_stage", release=True, shards=16, scale=1, name="miri:release")],
         thorough=[native("dbg"), native("rel"),
                   custom("miri_stage", release=True, shards=16, scale=8, name="miri:release"),
-                  custom("miri_stage", release=False, shards=16, scale=8, name="miri:dev")],
+                  custom("miri_stage", release=False, shards=16, scale=8, name="miri:dev"),
+                  custom("asan_stage", builds=["asan"], scale=0.2, name="asan"),
+                  custom("fuzz_stage", builds=["dbg", "rel"], target="exec_total", seconds=240, name="libfuzzer:exec_total")],
     ),
 )
 
@@ -746,3 +750,151 @@ PROPS["C20"] = dict(
                   custom("c20_valgrind", builds=["cli"], n=60)],
     ),
 )
+
+
+# --------------------------------------------------------------------------- ASan and libFuzzer stages (thorough)
+
+def asan_stage(c):
+    """The same worker built with -Zsanitizer=address (release profile, unchecked paths live, H1 passive)."""
+    import concurrent.futures as cf
+    st = c["stage"]
+    prop, tier, seed, merged = c["prop"], c["tier"], c["seed"], c["merged"]
+    binary = c["binaries"]["asan"]
+    outdir = os.path.join(c["outdir"], "asan")
+    os.makedirs(outdir, exist_ok=True)
+    nshards = c["NCPU"]
+    env = dict(c["ENV"])
+    env["ASAN_OPTIONS"] = "halt_on_error=1:abort_on_error=1:detect_leaks=0:hard_rss_limit_mb=3000:allocator_may_return_null=0"
+
+    def one(i):
+        cmd = [binary, "run", prop, "--tier", tier, "--seed", str(seed), "--shard", str(i), "--nshards", str(nshards),
+               "--profile", "asan", "--out", outdir, "--scale", str(st.get("scale", 0.1)), "--passive", "--no-as-limit"]
+        import subprocess
+        try:
+            p = subprocess.run(cmd, env=env, capture_output=True, timeout=st.get("watchdog", 3000), preexec_fn=c["no_limit"])
+            return i, p.returncode, p.stderr.decode("utf-8", "replace"), False, cmd
+        except subprocess.TimeoutExpired:
+            return i, -9, "", True, cmd
+
+    with cf.ThreadPoolExecutor(max_workers=c["NCPU"]) as ex:
+        results = list(ex.map(one, range(nshards)))
+    cases = 0
+    for i, rc, err, to, cmd in results:
+        rep_path = f"{outdir}/shard_asan_{i}.json"
+        if to:
+            merged.inconclusive["asan_watchdog"] = merged.inconclusive.get("asan_watchdog", 0) + 1
+            c["inconclusive"].append(f"asan shard {i} hit the watchdog")
+            continue
+        m = re.search(r"ERROR: AddressSanitizer: ([a-zA-Z\-]+)", err)
+        if m:
+            if "hard rss limit" in err or "allocation-size-too-big" in err or "out-of-memory" in err:
+                merged.inconclusive["asan_resource"] = merged.inconclusive.get("asan_resource", 0) + 1
+                c["inconclusive"].append(f"asan shard {i} was lost to a resource limit")
+                continue
+            frames = re.findall(r"#\d+ 0x[0-9a-f]+ in [^\n]*?(/repo/src/[^\s:]+:\d+)", err)
+            frame = frames[0].replace("/repo/", "") if frames else "?"
+            sig = f"asan:{m.group(1)}@{frame}"
+            j = None
+            try:
+                with open(f"{outdir}/journal_asan_{i}.txt") as f:
+                    j = f.readline().split()[:2]
+            except Exception:
+                pass
+            rcmd = [binary, "replay", prop, "--tier", tier, "--seed", str(seed), "--profile", "asan", "--stage",
+                    j[0] if j else "?", "--index", j[1] if j else "0", "--passive", "--no-as-limit"]
+            replay = dict(property=prop, signature=sig, detail=err[-3000:], profile="asan", tier=tier, seed=seed,
+                          stage=j[0] if j else "?", index=int(j[1]) if j else -1, case={}, cmd=rcmd,
+                          env={"ASAN_OPTIONS": env["ASAN_OPTIONS"]})
+            merged.add_violation(sig, err[-1500:], replay)
+            continue
+        if os.path.exists(rep_path):
+            with open(rep_path) as f:
+                rep = json.load(f)
+            cases += rep.get("evaluations", 0)
+            merged.add_report(rep, "asan")
+            merged.add_hashes(f"{outdir}/shard_asan_{i}.hashes")
+            for v in rep.get("violations", []):
+                replay = dict(property=prop, signature=v["signature"], detail=v["detail"], profile="asan", tier=tier,
+                              seed=seed, stage=v["stage"], index=v["index"], case=v["case"], cmd=cmd,
+                              env={"ASAN_OPTIONS": env["ASAN_OPTIONS"]})
+                merged.add_violation(v["signature"], v["detail"], replay, v.get("count", 1))
+        else:
+            c["inconclusive"].append(f"asan shard {i} exited {rc} without a report: {err[-300:]}")
+    merged.counters["sanitizer.asan.cases"] = merged.counters.get("sanitizer.asan.cases", 0) + cases
+
+
+def fuzz_stage(c):
+    """libFuzzer (+ASan) as a workload amplifier; every crash artifact is re-run through `vcheck file`,
+    so the verdict still comes from the monitors."""
+    import glob
+    import subprocess
+    st = c["stage"]
+    prop, tier, seed, merged = c["prop"], c["tier"], c["seed"], c["merged"]
+    target = st["target"]
+    vcheck = c["binaries"]["dbg"]
+    vcheck_rel = c["binaries"].get("rel", vcheck)
+    fdir = os.path.join(c["ROOT"], "fuzz")
+    tdir = f"{c['TARGET']}/fuzz"
+    work = os.path.join(c["outdir"], f"fuzz_{target}")
+    corpus = os.path.join(work, "corpus")
+    arts = os.path.join(work, "artifacts")
+    os.makedirs(corpus, exist_ok=True)
+    os.makedirs(arts, exist_ok=True)
+    env = dict(c["ENV"])
+    env["CARGO_NET_OFFLINE"] = "true"
+    lock = os.path.join(fdir, "Cargo.lock")
+    if not os.path.exists(lock):
+        import shutil
+        shutil.copy("/repo/Cargo.lock", lock)
+    b = subprocess.run(["cargo", "+nightly", "fuzz", "build", "--fuzz-dir", fdir, "--target-dir", tdir, target],
+                       env=env, capture_output=True, text=True, cwd=fdir)
+    if b.returncode != 0:
+        c["inconclusive"].append("cargo fuzz build failed: " + b.stderr[-400:])
+        return
+    c["run_proc"]([vcheck, "emit", prop, "--out", corpus, "--seed", str(seed), "--n", "400"], 600)
+    c["run_proc"]([vcheck, "emit", "DICT", "--out", os.path.join(work, "dict.txt")], 60)
+    secs = st.get("seconds", 240)
+    cmd = ["cargo", "+nightly", "fuzz", "run", "--fuzz-dir", fdir, "--target-dir", tdir, target, corpus, "--",
+           f"-max_total_time={secs}", "-timeout=10", "-rss_limit_mb=2048", f"-fork={c['NCPU']}", "-ignore_crashes=1",
+           "-ignore_ooms=1", "-ignore_timeouts=1", f"-dict={work}/dict.txt", f"-artifact_prefix={arts}/",
+           f"-seed={seed}", "-len_control=0", "-max_len=2048"]
+    try:
+        p = subprocess.run(cmd, env=env, capture_output=True, text=True, cwd=fdir, timeout=secs + 600,
+                           preexec_fn=c["no_limit"])
+        out = p.stderr
+    except subprocess.TimeoutExpired:
+        c["inconclusive"].append("libFuzzer campaign hit the watchdog")
+        return
+    execs = 0
+    for m in re.finditer(r"#(\d+): cov:", out):
+        execs = max(execs, int(m.group(1)))
+    for m in re.finditer(r"Done (\d+) runs", out):
+        execs = max(execs, int(m.group(1)))
+    merged.counters[f"fuzz.{target}.execs"] = execs
+    merged.evaluations += execs
+    crashes = sorted(glob.glob(os.path.join(arts, "crash-*")))
+    merged.counters[f"fuzz.{target}.crash_artifacts"] = len(crashes)
+    merged.counters[f"fuzz.{target}.oom_or_timeout_artifacts_ignored"] = len(glob.glob(os.path.join(arts, "oom-*"))) + len(glob.glob(os.path.join(arts, "timeout-*")))
+    confirmed = 0
+    for a in crashes[:200]:
+        for vb, prof in ((vcheck, "dbg"), (vcheck_rel, "rel")):
+            rc, o, e, to = c["run_proc"]([vb, "file", prop, a, "--profile", prof], 120)
+            if to:
+                continue
+            try:
+                rep = json.loads(o.decode("utf-8", "replace").strip().splitlines()[-1])
+            except Exception:
+                continue
+            for v in rep.get("violations", []):
+                confirmed += 1
+                keep = os.path.join(c["ROOT"], "replays", prop)
+                os.makedirs(keep, exist_ok=True)
+                import shutil
+                dst = os.path.join(keep, "fuzz_" + os.path.basename(a))
+                shutil.copy(a, dst)
+                replay = dict(property=prop, signature=v["signature"], detail=v["detail"], profile=prof, tier=tier, seed=seed,
+                              case=v["case"], cmd=[vb, "file", prop, dst, "--profile", prof], found_by=f"libFuzzer {target}")
+                merged.add_violation(v["signature"], v["detail"], replay, v.get("count", 1))
+    merged.counters[f"fuzz.{target}.artifacts_confirmed_by_monitors"] = confirmed
+    if execs == 0:
+        c["inconclusive"].append("libFuzzer reported no executions")
